@@ -6,10 +6,10 @@
    (Model/CborEnc.v), the indefinite-length array of the path, CRC-32 envelope, Base58.
    Decoding of untrusted CBOR is done by cbor2 in the library and is an oracle here ([parse_outer],
    [parse_payload], [parse_bytes]): each answers None unless the input is well-formed CBOR of the shape the
-   library then insists on.  [parse_outer] and [parse_payload] demand EXACTLY ONE item -- nothing may follow it
-   (_CborLoadsExact; before the repair of finding C10-BYRON-TRAILING cbor2.loads ignored what followed); the value of
-   attribute 1 is still read with cbor2.loads, i.e. [parse_bytes] looks at its first item only.  The harness answers
-   the three oracles with its own CBOR reader (harness/cborref.py), not with cbor2.  Hashes, PBKDF2, ChaCha20-Poly1305 and CRC-32 are oracles.
+   library then insists on.  All three demand EXACTLY ONE item -- nothing may follow it (_CborLoadsExact; before the
+   repairs of findings C10-BYRON-TRAILING and C10-BYRON-CBOR-LAX cbor2.loads ignored what followed) -- and integers
+   proper for the CRC and the type (a CBOR false / true is refused).  The harness answers the three oracles with its
+   own CBOR reader (harness/cborref.py), not with cbor2.  Hashes, PBKDF2, ChaCha20-Poly1305 and CRC-32 are oracles.
 
    The decoder is modelled as property C14 demands: EVERY input that is not well-formed CBOR of the expected shape
    (tag 24 around a byte string, CRC-32, [28-byte hash, attribute map with byte-string values, type]) is a ValueError.
@@ -82,9 +82,9 @@ Section Byron.
   (* [bytes root, dict attrs, int type] with len(attrs) <= 2 and (empty or 1 in attrs or 2 in attrs):
      (root, value stored under key 1 if any, type) *)
   Variable parse_payload : list N -> option (list N * option (list N) * N).
-  (* cbor2.loads of the value of attribute 1, as far as the decoder's result goes: the content of a CBOR byte string;
-     the empty string for CBOR null (the library then has hd_path_enc_bytes = None and appends nothing); None = any
-     other item (the property demands ValueError; finding C14-BYRON-ATTRS: today a TypeError) or malformed CBOR *)
+  (* the value of attribute 1 read as exactly one CBOR item: the content of a byte string; None = anything else
+     (another item -- also CBOR null, which was taken for "no HD path" before the repair of C10-BYRON-CBOR-LAX --,
+     bytes after the item, malformed CBOR): ValueError *)
   Variable parse_bytes : list N -> option (list N).
 
   (* _AdaByronAddrHdPath.Encrypt / Decrypt *)
